@@ -2915,9 +2915,10 @@ func (ts *TokenStore) handleCreateCommon(ctx context.Context, req *logical.Reque
 	switch tokenTypeStr {
 	case "", "service":
 	case "batch":
+		// Each parameter is checked on its own: a harmless value for one of
+		// them (e.g. explicit_max_ttl=0s) must not hide another.
 		var badReason string
-		switch {
-		case explicitMaxTTL != "":
+		if explicitMaxTTL != "" {
 			dur, err := parseutil.ParseDurationSecond(explicitMaxTTL)
 			if err != nil {
 				return logical.ErrorResponse("'explicit_max_ttl' value could not be parsed"), nil
@@ -2925,9 +2926,11 @@ func (ts *TokenStore) handleCreateCommon(ctx context.Context, req *logical.Reque
 			if dur != 0 {
 				badReason = "explicit_max_ttl"
 			}
-		case numUses != 0:
+		}
+		if badReason == "" && numUses != 0 {
 			badReason = "num_uses"
-		case period != "":
+		}
+		if badReason == "" && period != "" {
 			dur, err := parseutil.ParseDurationSecond(period)
 			if err != nil {
 				return logical.ErrorResponse("'period' value could not be parsed"), nil
@@ -3012,6 +3015,12 @@ func (ts *TokenStore) handleCreateCommon(ctx context.Context, req *logical.Reque
 		if role.PathSuffix != "" {
 			te.Path = fmt.Sprintf("%s/%s", te.Path, role.PathSuffix)
 		}
+	}
+
+	// Batch tokens are not persisted and carry no use count, so a use limit
+	// (from the request or merged in from the role) could never be enforced.
+	if te.Type == logical.TokenTypeBatch && te.NumUses != 0 {
+		return logical.ErrorResponse("batch tokens cannot have %q set", "num_uses"), nil
 	}
 
 	// Attach the given display name if any
